@@ -4,10 +4,10 @@
    gen_* regions are regenerated from the C++ sources on every run (translate/t2_regions.py): loop bounds, strides,
    nowait clauses, loop bodies, and whether the solver scratch vectors are private.  The footprints of the task
    functions (ParDefs.footprint) are validated against the implementation by the K-footprint correspondence. *)
-From Coq Require Import List ZArith Bool Lia.
+From Coq Require Import List ZArith Bool Lia String.
 From GMGP Require Import ParDefs ParProofs ParProofs_smoother_take ParProofs_ext_smoother_take
-  ParProofs_smoother_give ParProofs_ext_smoother_give ParProofs_assembly.
-From GMGPGen Require Import ParRegionsGen.
+  ParProofs_smoother_give ParProofs_ext_smoother_give ParProofs_assembly ParOwnerDefs ParOwnerProofs.
+From GMGPGen Require Import ParRegionsGen ParOwnerGen.
 Import ListNotations.
 Local Open Scope Z_scope.
 
@@ -33,11 +33,36 @@ Proof. exact ext_smoother_give_race_free. Qed.
 Theorem C11_ext_smoother_take_race_free : forall d, valid d -> d_nt d mod 2 = 0 -> race_free gen_ext_smoother_take d.
 Proof. exact ext_smoother_take_race_free. Qed.
 
+(* every "owner computes" region translator T2b regenerates from the sources -- the five grid transfers and the injection
+   (reference and optimised versions), the FMG interpolation, the six loops of the two LevelCache constructors, build_rhs_f and
+   discretize_rhs_f, computeExactError, extrapolatedResidual, the vector kernels, Vector and COO copies: 34 regions -- is race
+   free: two iterations that may run concurrently never write the same element, and never write an element the other may
+   read.  [race_free_owner] lets any two iterations of one work-shared loop, and any two iterations of loops with only
+   `nowait` between them, overlap.  The theorem is stated over the whole generated list, so a region that is added to one of
+   the translated files is covered (or breaks the proof) without an edit here. *)
+Theorem C11_owner_regions_race_free : forall d, valid d ->
+  Forall (fun r => race_free_owner (snd r) d) gen_owner_regions.
+Proof. exact all_owner_regions_race_free. Qed.
+
+(* the sufficient condition the proof goes through, for any region of this shape *)
+Theorem C11_owner_condition_sound : forall region d, region_ok region d -> race_free_owner region d.
+Proof. exact region_ok_race_free. Qed.
+
+(* not vacuous: a loop that writes through a shared scalar, or two nowait loops with overlapping row ranges, do clash *)
+Example C11_owner_negative :
+  owner_find_race [mkOloop false false (fun _ => 0) (fun d => d_nsc d) (fun _ => 0) (fun d => d_nt d)
+                     [("result"%string, T2 VO VN); ("i_r_coarse"%string, TScalar)] [] []] (mkDims 9 8 5) <> None /\
+  owner_find_race [mkOloop true false (fun _ => 0) (fun d => d_nsc d + 1) (fun _ => 0) (fun d => d_nt d) [("result"%string, T2 VO VN)] [] [];
+                   mkOloop true false (fun _ => 0) (fun d => d_nt d) (fun d => d_nsc d) (fun d => d_nr d) [("result"%string, T2 VN VO)] [] []]
+                  (mkDims 9 8 5) <> None /\
+  forallb (fun r => match owner_find_race (snd r) (mkDims 9 8 5) with None => true | Some _ => false end) gen_owner_regions = true.
+Proof. split; [vm_compute; discriminate|split; [vm_compute; discriminate|vm_compute; reflexivity]]. Qed.
+
 (* the hypotheses are met by real grids, and the statement is not vacuous: there ARE concurrent pairs *)
 Example C11_nonvacuous :
   valid (mkDims 9 8 5) /\ 8 mod 2 = 0 /\
-  (length (concurrent_iterations gen_smoother_give (mkDims 9 8 5)) > 20)%nat /\
-  (length (concurrent_iterations gen_residual_give (mkDims 9 8 5)) > 5)%nat.
+  (List.length (concurrent_iterations gen_smoother_give (mkDims 9 8 5)) > 20)%nat /\
+  (List.length (concurrent_iterations gen_residual_give (mkDims 9 8 5)) > 5)%nat.
 Proof. unfold valid. cbn [d_nsc d_nr d_nt]. repeat split; try lia; vm_compute; lia. Qed.
 
 (* a region that shares the solver scratch between threads is NOT race free (what the private-scratch bit is for) *)
